@@ -156,8 +156,9 @@ func init() {
 		orch(pkgRapid, "VerifC03Held1I1", 1, "held-back party with an internal extension", "held-init", "done"),
 		orch(pkgRC, "VerifFullTimeoutExt", 1, "history: init with an extension, timeout reset, re-initialisation inside the next invocation: in EVERY generation the runtime is started only after every launched extension registered", "scenario-done"),
 		orch(pkgRC, "VerifFullExitExt", 1, "history: runtime exit with an extension, reset, re-initialisation", "scenario-done"),
+		orch(pkgRC, "VerifC13StaleIdentifier", 0, "after a reset, requests carrying the identifier an external or an internal extension of the PREVIOUS generation was given (next / init error / exit error, before or while the new invocation is with its runtime) are refused with 403 and do not touch the barriers of the new generation", "stale-refused", "done"),
 	}
-	c03t := append(withD(c03, 3, 2000000), orch(pkgRapid, "VerifC03Init3", 2, "3 external extensions", "done"))
+	c03t := append(withD(c03, 2, 2000000), orch(pkgRapid, "VerifC03Init3", 2, "3 external extensions", "done"))
 	checkRegistry = append(checkRegistry, &checkSpec{id: "C03", level: "other", quick: c03, thorough: c03t, assume: orchAssume, outside: orchOutside})
 
 	c04 := []*harnessSpec{
@@ -166,8 +167,9 @@ func init() {
 		orch(pkgRapid, "VerifC04Invoke2_I1", 2, "2 invocations, 1 external + 1 internal extension", "done"),
 		orch(pkgRapid, "VerifC04Held2_2", 1, "any ONE party is held back before returning to next until nothing else can happen: the invocation is not complete while the runtime or an INVOKE subscriber has not asked for next", "held-invoke", "done"),
 		orch(pkgRapid, "VerifC04Held2_I1", 1, "held-back party, external + internal extension", "held-invoke", "done"),
+		orch(pkgRC, "VerifC13StaleIdentifier", 0, "after a reset, requests carrying the identifier an external or an internal extension of the PREVIOUS generation was given (next / init error / exit error, before or while the new invocation is with its runtime) are refused with 403 and do not touch the barriers of the new generation", "stale-refused", "done"),
 	}
-	c04t := append(withD(c04, 3, 2000000), orch(pkgRapid, "VerifC04Invoke3_1", 2, "3 invocations, 1 extension", "done"))
+	c04t := append(withD(c04, 2, 2000000), orch(pkgRapid, "VerifC04Invoke3_1", 2, "3 invocations, 1 extension", "done"))
 	checkRegistry = append(checkRegistry, &checkSpec{id: "C04", level: "other", quick: c04, thorough: c04t, assume: orchAssume, outside: orchOutside})
 
 	srvSeq := func(name string, d int, desc string, reach ...string) *harnessSpec {
@@ -183,7 +185,7 @@ func init() {
 		orch(pkgRC, "VerifFullTimeoutThenOK", 2, "FULL stack: an invocation following a timed-out one (deadline, body, outcome)", "timeout", "respond", "scenario-done"),
 	}
 	c01 = append(c01, frontEnd()...)
-	c01t := append(withD(c01, 3, 3000000), orch(pkgRC, "VerifFullAny2", 2, "FULL stack: any of 7 runtime behaviours for each of 2 invocations", "scenario-done"), twoCallers)
+	c01t := append(withD(c01, 2, 3000000), orch(pkgRC, "VerifFullAny2", 2, "FULL stack: any of 7 runtime behaviours for each of 2 invocations", "scenario-done"), twoCallers)
 	checkRegistry = append(checkRegistry, &checkSpec{id: "C01", level: "other", quick: c01, thorough: c01t, assume: orchAssume, outside: append(orchOutside, "InitHandler / main.go of cmd/aws-lambda-rie (environment forwarding, HTTP server)")})
 
 	c02 := []*harnessSpec{
@@ -194,7 +196,7 @@ func init() {
 		srvSeq("VerifC02LateResetFailure", 2, "stub sandbox: the goroutine waiting for the outcome of timed-out invocation A learns about the reset only when invocation B has been dispatched: A's platform error is never delivered for B's id, B's response is accepted", "late-reset-failure", "done"),
 		orch(pkgRC, "VerifC06ExtensionFault", 1, "accepted only once: after the platform answered the caller with the first fault (extension crash), the function's own late response for the same id is refused (no panic, caller keeps the platform error)", "late-response-after-fault", "done"),
 	}
-	c02t := append(withD(c02, 3, 3000000), orch(pkgRC, "VerifC02ServerScript5", 0, "as ServerScript4 with 5 operations", "accepted"))
+	c02t := append(withD(c02, 2, 3000000), orch(pkgRC, "VerifC02ServerScript5", 0, "as ServerScript4 with 5 operations", "accepted"))
 	checkRegistry = append(checkRegistry, &checkSpec{id: "C02", level: "other", quick: c02, thorough: c02t, assume: orchAssume, outside: orchOutside})
 
 	c05 := []*harnessSpec{
@@ -208,7 +210,7 @@ func init() {
 		frontEnd()[0],
 		expiry(orch(pkgRC, "VerifFullRaceInit2", 1, "FULL stack, timer may fire at any point INCLUDING the lazy initialisation: a timed-out invocation is never dispatched behind its reset (the next runtime gets the next event)", "expiry-before-dispatch", "respond", "scenario-done")),
 	}
-	checkRegistry = append(checkRegistry, &checkSpec{id: "C05", level: "other", quick: c05, thorough: withD(c05, 3, 3000000), assume: orchAssume, outside: append(orchOutside, "wall-clock bound of the answer (logical time only)", "stalls during extension registration / runtime init (see C03 harness for the barrier)")})
+	checkRegistry = append(checkRegistry, &checkSpec{id: "C05", level: "other", quick: c05, thorough: withD(c05, 2, 3000000), assume: orchAssume, outside: append(orchOutside, "wall-clock bound of the answer (logical time only)", "stalls during extension registration / runtime init (see C03 harness for the barrier)")})
 
 	c06 := []*harnessSpec{
 		orch(pkgRC, "VerifFullExitThenOK", 2, "FULL stack: runtime exits after receiving the invocation; next invocation recovers", "exit", "respond", "scenario-done"),
@@ -250,7 +252,7 @@ func init() {
 		orch(pkgRC, "VerifFullRespondExit", 2, "the runtime posts its response and exits instead of polling again: no success runtime-done for that invocation", "respond-exit", "scenario-done"),
 		orch(pkgRC, "VerifC08SettledExt", 0, "error statuses carry the type of the first fault of THEIR generation: after a reset during which an extension reported exit/error, a runtime exit of the next generation is reported as Runtime.ExitError (differential against a fresh instance)", "prefix-6", "done"),
 	}
-	checkRegistry = append(checkRegistry, &checkSpec{id: "C15", level: "other", quick: c15, thorough: withD(c15, 3, 3000000),
+	checkRegistry = append(checkRegistry, &checkSpec{id: "C15", level: "other", quick: c15, thorough: withD(c15, 2, 3000000),
 		assume: []string{"recording EventsAPI injected into the real rapidContext; the monitor (harness code) checks nesting, counts, phase tags and truthfulness of success statuses against the ghost log of what the scripted parties really did"},
 		outside: []string{"log formatting / standalone telemetry rendering", "the exact error type of every failure (only non-empty for error statuses, Runtime.ExitError checked in C06)", "restore events"}})
 }
@@ -277,6 +279,7 @@ func init() {
 		orch(pkgRC, "VerifC13External3", 0, "FULL stack: an external extension executes every script of 3 calls over {register(INVOKE), register(bad event), register(SHUTDOWN), next, init/error, exit/error, unknown id, missing/malformed id} against a reference automaton", "registered", "event", "init-error", "exit-error", "script-done"),
 		orch(pkgRC, "VerifC13Internal3", 0, "the same for an internal extension registering from inside the runtime", "registered", "script-done"),
 		orch(modulePath+"/lambda/core", "VerifC13Limit", 0, "registration service: k = 0..10 external extensions, then registrations chosen among {fresh internal name, name of an external, repeated internal name}: at most ten extensions, ErrTooManyExtensions for the eleventh, name collisions across kinds refused, refused registrations change no count", "limit", "collision", "duplicate", "done"),
+orch(pkgRC, "VerifC13StaleIdentifier", 1, "after a reset, requests carrying the identifier an external or an internal extension of the PREVIOUS generation was given (next / init error / exit error, before or while the new invocation is with its runtime) are refused with 403 and do not touch the barriers of the new generation", "stale-refused", "done"),
 		orch(pkgRC, "VerifC13ExitWhileParked", 1, "exit/error reported while another request of the extension is parked in next: the parked next is refused when released", "exit-reported", "parked-next-answered"),
 	}
 	c13t := []*harnessSpec{
@@ -383,6 +386,8 @@ func init() {
 		orch(pkgRC, "VerifC08SettledExt", 0, "as above with one extension subscribed to INVOKE+SHUTDOWN (base schedule); 7th prefix: timeout during which the extension answers SHUTDOWN with an exit/error report; during the suffix a request carrying the OLD generation's extension identifier (next or exit/error) must be refused with 403", "prefix-3", "prefix-6", "stale-identifier", "suffix-1", "done"),
 		orch(pkgRC, "VerifC08Late", 1, "the exit notification of the first SIGKILLed process of the prefix is handled late: when the next invocation has begun / has reached its runtime / has ended (3 phases) x 6 prefixes x 4 suffixes; caller outcomes and platform events equal those of the reference", "prefix-2", "suffix-2", "done"),
 		orch(pkgRC, "VerifC08LateExt", 0, "late notification, one extension (base schedule)", "done"),
+		orch(pkgRC, "VerifC08InternalFirstFresh", 1, "reference: on a fresh instance an internal extension may ask for its first event before the runtime's first next", "internal-first", "done"),
+		orch(pkgRC, "VerifC08InternalFirstAfterReset", 1, "a party that exists only in a LATER generation: after a generation without extensions and a reset the same initialisation completes (barrier counts do not survive the reset)", "internal-first", "done"),
 		orch(pkgRC, "VerifC05SlowStateGetter", 1, "interop-server leftover: the DONE of an invocation of the old generation posted after the reset and the next reservation is discarded", "late-done", "done"),
 	}
 	c08t := []*harnessSpec{
